@@ -113,7 +113,8 @@ func workload(w *cbWorld, recoveryHeavy bool) {
 				}
 			}
 			target := since + base + time.Duration(rapid.IntRange(-1, 1).Draw(rt, "edge-off"))
-			if state == stRecovering {
+			if state == stRecovering && rapid.IntRange(0, 3).Draw(rt, "ramp-inside") > 0 {
+				// somewhere on the ramp; otherwise (one in four) the last instants of the recovery period as above
 				target = since + time.Duration(rapid.Int64Range(0, int64(base)+1).Draw(rt, "ramp-point"))
 			}
 			if d := target - w.now(); d > 0 {
